@@ -1,14 +1,18 @@
 import BppModel.Interval
+import BppModel.Text.Number
 /-
 Model of `IntervalConstraint::getDescription` / `readDescription`
 (src/Bpp/Numeric/Constraints.h:234-272) on characters, with the number syntax of
 `TextTools::isDecimalNumber` / `toDouble` (src/Bpp/Text/TextTools.cpp:135-222).
 
-Numbers: `isDecimalNumber` is transcribed in full (it decides whether `toDouble` raises).  The
-*value* of an accepted number and the decimal rendering of a double (`ostream << double`,
-6 significant digits) are modelled only on a strict subset — plain decimals `-?d+(.d+)?` whose
-value is a double (dyadic), rendered without exponent — through the class `NumText`; everything
-else is the explicit outcome `unmodelled`, never a made-up value.
+Numbers: `isDecimalNumber` (the repaired one, with the digit counter) is transcribed in full: it
+decides whether `toDouble` raises.  The *value* of an accepted number text is its exact decimal
+value — for plain decimals `-?d+(.d+)?` computed here, for every other accepted text (`.5`, `1.`,
+`1e2`, `25e-1` …) by C17's model of the stream extraction (`Bpp.Text.Number.streamDouble`) —
+whenever that value is a double (dyadic, 53-bit numerator); a text whose value is not a double
+(`0.1`, `1e-3`: the result is libc's rounding) is the explicit outcome `unmodelled`, never a
+made-up value.  The decimal rendering of a double (`ostream << double`, 6 significant digits) is
+modelled for the doubles printed exactly and without exponent.
 -/
 namespace Bpp.Describe
 
@@ -18,7 +22,7 @@ inductive NumParse (α : Type) where
   | reject
   /-- accepted by `isDecimalNumber`, but outside the strict subset whose value is modelled -/
   | unmodelled
-deriving Repr
+deriving Repr, DecidableEq
 
 /-- text form of the scalars of one interpretation -/
 class NumText (α : Type) where
@@ -38,34 +42,41 @@ def isDigit (c : Char) : Bool := c.isDigit
 def trim (l : List Char) : List Char :=
   ((l.dropWhile isSpace).reverse.dropWhile isSpace).reverse
 
-/-- the loop of `TextTools::isDecimalNumber(s, '.', 'e')` on the characters not yet visited
-(`i == s.size() - 1` in the source = "no character follows"); `sep`, `sci` are the two counters -/
-def isDecLoop : List Char → (sep sci : Nat) → Bool
-  | [], _, _ => true
-  | c :: rest, sep, sci =>
+/-- the loop of `TextTools::isDecimalNumber(s, '.', 'e')` (TextTools.cpp:146-173, as repaired by
+"isDecimalNumber/isDecimalInteger require at least one mantissa digit") on the characters not yet
+visited (`i == s.size() - 1` in the source = "no character follows"); `sep`, `sci`, `dig` are
+`sepCount`, `sciCount`, `digitCount`.  The same loop as `Bpp.Text.Number.decLoop '.' 'e'` (C17's
+transcription): `isDecimalNumber_eq_number` (BppProofs/Lemmas/DescribeRat.lean). -/
+def isDecLoop : List Char → (sep sci dig : Nat) → Bool
+  | [], _, _, dig => decide (0 < dig)                 -- :173 a sign, a separator or an exponent alone is not a number
+  | c :: rest, sep, sci, dig =>
     if c == '.' then
-      if sep + 1 > 1 || sci > 1 then false else isDecLoop rest (sep + 1) sci
+      if sep + 1 > 1 || sci > 1 then false else isDecLoop rest (sep + 1) sci dig
     else if c == 'e' then
+      if dig == 0 then false else                     -- :154 at least one digit before the `e`
       match rest with
       | [] => false                                   -- must be something after the `e`
       | c' :: rest' =>
-        let sep' := if sep == 0 then 1 else sep       -- no separator in the exponent
+        -- `if (sepCount == 0) sepCount = 1`: no separator in the exponent
         if c' == '-' || c' == '+' then
           -- the sign is skipped; it must not be the last character
           match rest' with
           | [] => false
-          | _ :: _ => if sep' > 1 || sci + 1 > 1 then false else isDecLoop rest' sep' (sci + 1)
+          | _ :: _ =>
+            if (if sep == 0 then 1 else sep) > 1 || sci + 1 > 1 then false
+            else isDecLoop rest' (if sep == 0 then 1 else sep) (sci + 1) dig
         else
-          if sep' > 1 || sci + 1 > 1 then false else isDecLoop (c' :: rest') sep' (sci + 1)
+          if (if sep == 0 then 1 else sep) > 1 || sci + 1 > 1 then false
+          else isDecLoop (c' :: rest') (if sep == 0 then 1 else sep) (sci + 1) dig
     else if !isDigit c then false
-    else if sep > 1 || sci > 1 then false else isDecLoop rest sep sci
+    else if sep > 1 || sci > 1 then false else isDecLoop rest sep sci (dig + 1)
 
 /-- `TextTools::isDecimalNumber(s)` (TextTools.cpp:135) -/
 def isDecimalNumber (l : List Char) : Bool :=
   if l.all isSpace then false else
   match l with
-  | '-' :: r => isDecLoop r 0 0
-  | r => isDecLoop r 0 0
+  | '-' :: r => isDecLoop r 0 0 0
+  | r => isDecLoop r 0 0 0
 
 /-- the value of a string of decimal digits -/
 def natOfDigits (l : List Char) : Nat := Nat.ofDigitChars 10 l 0
@@ -92,7 +103,10 @@ def isDouble (q : Rat) : Bool := isPow2 q.den && q.num.natAbs < 2 ^ 53 && q.den 
 def parseRat (l : List Char) : NumParse Rat :=
   if !isDecimalNumber l then .reject else
   match strictSplit l with
-  | none => .unmodelled
+  | none =>
+    -- any other accepted text: the exact value read by `istringstream >> double` (C17's model)
+    let q := Bpp.Text.Number.streamDouble l
+    if isDouble q then .ok q else .unmodelled
   | some (neg, ip, fp) =>
     let a : Rat := (natOfDigits ip : Rat) + (natOfDigits fp : Rat) / ((10 ^ fp.length : Nat) : Rat)
     let q := if neg then -a else a
